@@ -1354,6 +1354,27 @@ func (f *FuncCtx) convert(x Val, t types.Type) Val {
 	if _, ok := t.Underlying().(*types.Interface); ok {
 		return f.box(x, t)
 	}
+	// []byte -> *[N]byte (and -> [N]byte): an array holding the first N bytes of the slice (Go panics if it is shorter)
+	if sl, ok := x.Typ.Underlying().(*types.Slice); ok && isByte(sl.Elem()) {
+		var at types.Type
+		ptr := false
+		if p, isP := t.Underlying().(*types.Pointer); isP {
+			at, ptr = p.Elem(), true
+		} else {
+			at = t
+		}
+		if a, isA := at.Underlying().(*types.Array); isA {
+			if n, isB := byteArray(a); isB {
+				srt := f.S.SortOf(at)
+				arr := f.fresh("arrconv", srt)
+				f.emit(fmt.Sprintf("(assert (forall ((i!c Int)) (! (=> (and (<= 0 i!c) (< i!c %d)) (= (at_%s %s i!c) (select (s_arr %s) i!c))) :pattern ((at_%s %s i!c)))))", n, srt, arr, x.T, srt, arr))
+				if ptr {
+					return Val{T: fmt.Sprintf("(some %s)", arr), Typ: t}
+				}
+				return Val{T: arr, Typ: t}
+			}
+		}
+	}
 	// string <-> bytes and other representation changes: uninterpreted conversion
 	fn := "conv." + sanitize(ss) + ".to." + sanitize(ts)
 	f.S.declare(fn, fmt.Sprintf("(declare-fun %s (%s) %s)", fn, ss, ts))
@@ -1383,4 +1404,9 @@ func exprStr(n ast.Node) string {
 	var b strings.Builder
 	_ = printer.Fprint(&b, token.NewFileSet(), n)
 	return b.String()
+}
+
+func isByte(t types.Type) bool {
+	b, ok := t.Underlying().(*types.Basic)
+	return ok && (b.Kind() == types.Uint8 || b.Kind() == types.Byte)
 }
